@@ -1,5 +1,8 @@
 #!/bin/bash
-# run a command that modifies /repo's working tree while background soaks are paused
+# run a command that modifies /repo's working tree while background soaks are paused;
+# one such command at a time (flock), /repo reverted afterwards
+exec 9>/tmp/with_repo.lock
+flock 9
 touch /tmp/repo_busy
 while ls /tmp/soak_running* >/dev/null 2>&1; do sleep 2; done
 "$@"; rc=$?
